@@ -238,6 +238,8 @@ class NativeWorld:
         return r.randint(lo, hi)
 
     def int(self, name, lo=None, hi=None):
+        if name in self.used and name not in self.given:        # a name denotes ONE value per execution (as in the symbolic world)
+            return self.used[name]
         if name in self.given and not isinstance(self.given[name], str):
             v = int(self.given[name])
         elif self.rng is not None:
@@ -250,6 +252,8 @@ class NativeWorld:
         return v
 
     def bool(self, name):
+        if name in self.used and name not in self.given:
+            return self.used[name]
         if name in self.given:
             v = bool(self.given[name])
         elif self.rng is not None:
@@ -263,9 +267,11 @@ class NativeWorld:
         from .bits import Seq
         n = int(n)
         g = self.given.get(name)
+        if g is None and isinstance(self.used.get(name), dict) and self.used[name].get('n') == n:
+            g = self.used[name]
         val = 0
         if isinstance(g, dict) and 'v' in g:
-            val = int(g['v'])
+            val = int(g['v']) & ((1 << n) - 1) if n else 0        # a value re-used from an execution with another width is cut to size
         elif isinstance(g, dict) and 'atoms' in g:
             for k, v in g['atoms'].items():
                 a, b = map(int, k[1:].split(':'))
@@ -288,6 +294,8 @@ class NativeWorld:
 
     def choice(self, name, values):
         values = list(values)
+        if name in self.used and name not in self.given:
+            return values[self.used[name]]
         if name in self.given:
             k = int(self.given[name])
         elif self.rng is not None:
@@ -552,4 +560,42 @@ def run_native_unit(oid, case_idx, tier, seed):
     res['wall_s'] = time.time() - t0
     if res['status'] is None:
         res['status'] = 'FAILED' if res['failures'] else 'PASSED'
+    return res
+
+
+def run_native_chain(oid, case_idx, n, seed):
+    """history stand-in for a deductive obligation: n native executions IN A ROW in one process; every second one re-uses a random
+    half of the previous execution's input values (the part a cache might be keyed on) and draws the rest afresh.  A contract that
+    fails on a later execution although each execution alone satisfies it shows state carried between calls."""
+    import sys as _sys
+    _sys.set_int_max_str_digits(0)
+    ob = REGISTRY[oid]
+    case = ob.cases[case_idx]
+    res = {'oid': oid, 'case': case, 'case_idx': case_idx, 'evaluations': 0, 'skipped': 0, 'distinct': 0, 'failures': [],
+           'status': None, 'sample': None, 'covers': [], 'chain': True}
+    base = (seed * 9176 + hash((oid, case_idx, 'chain')) % 1000003) & 0x7fffffff
+    prev = None
+    t0 = time.time()
+    for j in range(n):
+        rng = random.Random(base + j)
+        given = None
+        if prev is not None and j % 2 == 1:
+            given = {k: v for k, v in prev.items() if not k.startswith('_') and rng.random() < 0.5}
+        r = run_native_once(oid, case_idx, given, base + j)
+        if r.get('skipped'):
+            res['skipped'] += 1
+            continue
+        res['evaluations'] += 1
+        prev = r['used']
+        if res['sample'] is None:
+            res['sample'] = r['used']
+        if not r['ok']:
+            res['failures'].append({'inputs': r['used'], 'failed': [f'(execution {j + 1} of a chain in one process) ' + x for x in r['failed']],
+                                    'trace': r.get('trace')})
+            break
+        if time.time() - t0 > 20:
+            break
+    res['distinct'] = res['evaluations']
+    res['wall_s'] = time.time() - t0
+    res['status'] = 'FAILED' if res['failures'] else 'PASSED'
     return res
